@@ -1127,3 +1127,136 @@ Proof. exact grow_nospace_unchanged_refuted. Qed.
 Print Assumptions C01_volchain_grow_refines_slots.
 Print Assumptions C01_volchain_grow_create_decodes.
 Print Assumptions C01_volchain_grow_nospace_unchanged_refuted.
+
+(* ==================================================================================================================
+   DIRECTORIES IN THE FIXED ROOT ON WHOLE IMAGES (Model/VolDirTree.v: vol_create_dir_root, vol_remove_dir_root; byte-exact against
+   the library: tools/props/cvoltree_corr.py, model cvol mkdir / rmdir).
+   PROVED IN GENERAL: the failure clauses (nothing changes) and the meaning of "not empty".
+   PARTIAL (the general statements are in the comments; proved on the concrete volume of Proofs/VolDirTreeExamples.v and compared
+   with the library on every call of the correspondence stream): the decode of the image after a SUCCESSFUL create_dir / remove. *)
+From FatVerif Require Import Model.VolDirTree Proofs.VolDirTreeProofs Proofs.VolDirTreeExamples Proofs.VolSessionExamples.
+
+(* remove of a directory that is not empty for the code: DirectoryIsNotEmpty, image and FS-info latch handed back as they were *)
+Theorem C01_vol_remove_dir_nonempty_unchanged : forall upper oem im fi name ev l,
+  let g := parse_geom im in
+  root_lookup upper oem im name = Ok ev -> Lfn.ev_is_dir ev = true -> is_special ev = false ->
+  root_entry_cluster ev <> 0 -> chain_from g im (root_entry_cluster ev) (Abs.chain_fuel g) = Some l ->
+  dir_is_empty oem g im l = Ok false ->
+  vol_remove_dir_root upper oem im fi name = Some (Err EDirectoryIsNotEmpty, im, fi).
+Proof. exact vol_remove_dir_nonempty. Qed.
+
+(* ... where "not empty" is exactly: the listing of the directory (Dir::iter(): live entries, volume labels skipped) has an entry
+   whose rendered short name is neither "." nor ".." *)
+Theorem C01_vol_dir_is_empty_meaning : forall oem g im l es,
+  dir_entries oem (chain_dir_slots g im l) = Ok es ->
+  (dir_is_empty oem g im l = Ok false <-> exists ev, In ev es /\ is_dot_entry ev = false).
+Proof. exact dir_is_empty_false_iff. Qed.
+
+(* EVERY answer of remove-of-a-directory other than Ok (NotFound, InvalidInput for "." / "..", DirectoryIsNotEmpty, ...) leaves
+   the image and the latch equal - not only byte-wise: the same value *)
+Theorem C01_vol_remove_dir_failed_unchanged : forall upper oem im fi name r im' fi',
+  vol_remove_dir_root upper oem im fi name = Some (r, im', fi') -> r <> Ok tt -> im' = im /\ fi' = fi.
+Proof. exact vol_remove_dir_failed_unchanged. Qed.
+
+(* create_dir that does not create: image and latch are the same values as before (an existing directory of that name - Ok -, a file
+   of that name - InvalidInput -, a rejected name, no free cluster - NotEnoughSpace -), UNLESS the allocation had succeeded - the
+   only remaining path is the failing entry write with its give-back: C03_vol_create_dir_failed_gives_back *)
+Theorem C01_vol_create_dir_not_created_cases : forall upper oem im fi name now r im' fi',
+  vol_create_dir_root upper oem im fi name now = (r, (im', fi')) ->
+  (im' = im /\ fi' = fi /\ (forall x, r <> Ok (Some x))) \/
+  (exists a im1 fi1 c, check_for_existence upper oem (root_region_slots (parse_geom im) im) name (Some true) = Ok (Fresh a) /\
+                       vol_alloc_new_cluster (parse_geom im) im fi = Ok (im1, fi1, c)).
+Proof. exact vol_create_dir_not_created_cases. Qed.
+
+(* FULL STATEMENT, NOT PROVED IN GENERAL (C01_vol_create_dir_decodes):
+     fixed_root_geom (parse_geom im) -> bytes_ok im -> fi_inv .. im fi -> Wf.wf_issues fold im = [] -> Forall attrs_sane (root slots) ->
+     datetime_valid now = true -> vol_create_dir_root upper oem im fi name now = (Ok (Some (p, q, c)), (im', fi')) ->
+     exists ns1 ns2 e d1 d2,
+       v_root (abs im) = ns1 ++ ns2 /\ v_root (abs im') = ns1 ++ NDir e (Some [c]) [NDot d1; NDot d2] [] [] :: ns2 /\
+       fat_val g im c = FFree /\ e_cluster e = c /\ e_attr e = 16 /\ e_size e = 0 /\ matches name (entry e) /\ alias fresh /\
+       e_sfn d1 = DOT /\ e_cluster d1 = c /\ e_sfn_slot d1 = 0 /\ e_sfn d2 = DOTDOT /\ e_cluster d2 = 0 /\ e_sfn_slot d2 = 1 /\
+       stamps of e, d1, d2 = stamp_create now /\ every other node, labels, geometry, status as before /\
+       Abs.count_free g im' + 1 = Abs.count_free g im /\ Wf.wf_issues fold im' = [] /\
+       (forall o, img_get im' o <> img_get im o -> in a FAT copy \/ in root slots p .. q-1 \/ in cluster c).
+   What is missing: the bridge from the slot layer (DirSlotsProofs.create_entry_refines for want_dir = true) through abs_put_root to a
+   NESTED decode (decode_entries one level down on the new cluster) - the lemmas exist for files (VolDirProofs.vol_create_decodes) and
+   for an existing sub-directory (VolChainGrowProofs.bridge_abs), not yet for a node whose chain is created in the same call.
+   PROVED: the statement on the freshly formatted 64-sector FAT12 volume, name "Sub Dir" (long-name slot + alias SUBDIR~1). *)
+Theorem C01_vol_create_dir_decodes_partial :
+  v_root (abs ex_vol_im) = [] /\
+  match v_root (abs ex_mk_im) with
+  | [NDir e (Some [2]) [NDot d1; NDot d2] [] []] =>
+    e_lfn e = [83; 117; 98; 32; 68; 105; 114] /\ e_sfn e = [83; 85; 66; 68; 73; 82; 126; 49; 32; 32; 32] /\
+    e_attr e = 16 /\ e_cluster e = 2 /\ e_size e = 0 /\ e_first_slot e = 1 /\ e_sfn_slot e = 2 /\
+    e_sfn d1 = DOT /\ e_cluster d1 = 2 /\ e_attr d1 = 16 /\ e_sfn_slot d1 = 0 /\ e_lfn d1 = [] /\
+    e_sfn d2 = DOTDOT /\ e_cluster d2 = 0 /\ e_attr d2 = 16 /\ e_sfn_slot d2 = 1 /\ e_lfn d2 = [] /\
+    (e_ctime e, e_cdate e, e_mtime e, e_mdate e) = (e_ctime d1, e_cdate d1, e_mtime d1, e_mdate d1) /\
+    (e_ctime e, e_cdate e, e_mtime e, e_mdate e) = (e_ctime d2, e_cdate d2, e_mtime d2, e_mdate d2)
+  | _ => False
+  end /\
+  v_root_issues (abs ex_mk_im) = [] /\ v_labels (abs ex_mk_im) = v_labels (abs ex_vol_im) /\
+  v_geom (abs ex_mk_im) = v_geom (abs ex_vol_im) /\ v_status (abs ex_mk_im) = v_status (abs ex_vol_im).
+Proof. exact ex_mkdir_decodes. Qed.
+
+(* the outcome and the frame of that call: root slots 1 .. 2, cluster 2 (free before, end-of-chain after, in BOTH FAT copies);
+   every byte outside the two FAT entries, the two root slots and the cluster is as before; the cluster is zero behind "." and ".." *)
+Theorem C01_vol_create_dir_frame_partial :
+  (
+  fst ex_mk = Ok (Some (1, 3, 2)) /\ fat_val ex_g ex_vol_im 2 = FFree /\ fat_val ex_g ex_mk_im 2 = FEoc /\
+  ex_mk_fi = {| fi_free := None; fi_next := Some 3; fi_dirty := true |}
+  ) /\ (
+  img_read ex_mk_im 0 515 = img_read ex_vol_im 0 515 /\ img_read ex_mk_im 517 510 = img_read ex_vol_im 517 510 /\
+  img_read ex_mk_im 1029 539 = img_read ex_vol_im 1029 539 /\
+  img_read ex_mk_im 1632 416 = img_read ex_vol_im 1632 416 /\
+  img_read ex_mk_im 2560 (59 * 512) = img_read ex_vol_im 2560 (59 * 512) /\
+  img_read ex_mk_im 515 2 = [255; 15] /\ img_read ex_mk_im 1027 2 = [255; 15] /\
+  img_read ex_mk_im (2048 + 64) 448 = repeat 0 448 /\ img_read ex_vol_im 2048 512 = repeat 209 512
+  ).
+Proof. exact (conj ex_mkdir_outcome ex_mkdir_frame). Qed.
+
+(* FULL STATEMENT, NOT PROVED IN GENERAL (C01_vol_remove_dir_decodes): under the premises above, for a name that resolves to a
+   directory node NDir e (Some l) children [] labels of the root with every child an NDot:  vol_remove_dir_root = Some (Ok tt, im', fi')
+   with v_root (abs im') = ns1 ++ ns2, every cluster of l FFree, Abs.count_free g im' = Abs.count_free g im + length l, wf kept, changes only
+   in the FAT copies and the entry's root slots.  (Proof route: VolRemoveProofs.vol_remove_file_decodes with NDir for NFile; its
+   lemma decode_entries_off already covers sibling directories.)
+   PROVED: create_dir ; remove on the concrete volume returns to an image that DECODES EXACTLY as the formatted one (abs equal, 60
+   free clusters, no issue) and differs from it in exactly: root slots 1 and 2 (first byte 0xE5, the rest as written), and cluster 2
+   (zeroed, with the "." / ".." slots still in it - remove does not touch the directory's data); latch as after the create. *)
+Theorem C01_vol_create_then_remove_dir_partial :
+  match ex_rd with
+  | Some (r, im', fi') =>
+    r = Ok tt /\ abs im' = abs ex_vol_im /\ fat_val ex_g im' 2 = FFree /\ Abs.count_free ex_g im' = 60 /\
+    Wf.wf_issues (fun l => l) im' = [] /\ fi' = ex_mk_fi /\
+    img_read im' 0 1568 = img_read ex_vol_im 0 1568 /\ img_read im' 1632 416 = img_read ex_vol_im 1632 416 /\
+    img_read im' 2560 (59 * 512) = img_read ex_vol_im 2560 (59 * 512) /\
+    map (fun k => img_get im' (1536 + 32 * k)) [0; 1; 2; 3] = [65; 229; 229; 0] /\
+    img_read im' 2048 2 = [46; 32] /\ img_read im' (2048 + 64) 448 = repeat 0 448
+  | None => False
+  end.
+Proof. exact ex_rmdir_empty. Qed.
+
+(* a file inside makes the directory non-empty (the premises of C01_vol_remove_dir_nonempty_unchanged are satisfiable); once the
+   file is removed again - a DELETED slot stays inside - the directory is empty for the code and remove succeeds *)
+Theorem C01_vol_remove_dir_emptied_partial :
+  (
+  vol_create_empty_file_chain ex_U ex_O ex_mk_im [2] ex_inner ex_vol_now = Some (Ok (Some (2, 4)), ex_ne_im) /\
+  dir_is_empty ex_O ex_g ex_ne_im [2] = Ok false /\
+  vol_remove_dir_root ex_U ex_O ex_ne_im ex_mk_fi ex_dname = Some (Err EDirectoryIsNotEmpty, ex_ne_im, ex_mk_fi)
+  ) /\ (
+  vol_remove_empty_file_chain ex_U ex_O ex_ne_im [2] ex_inner = Some (Ok tt, ex_ne2_im) /\
+  img_get ex_ne2_im (2048 + 64) = 229 /\ dir_is_empty ex_O ex_g ex_ne2_im [2] = Ok true /\
+  match vol_remove_dir_root ex_U ex_O ex_ne2_im ex_mk_fi ex_dname with
+  | Some (r, im', _) => r = Ok tt /\ abs im' = abs ex_vol_im /\ Abs.count_free ex_g im' = 60 /\ Wf.wf_issues (fun l => l) im' = []
+  | None => False
+  end
+  ).
+Proof. exact (conj ex_rmdir_nonempty ex_rmdir_emptied). Qed.
+
+Print Assumptions C01_vol_remove_dir_nonempty_unchanged.
+Print Assumptions C01_vol_dir_is_empty_meaning.
+Print Assumptions C01_vol_remove_dir_failed_unchanged.
+Print Assumptions C01_vol_create_dir_not_created_cases.
+Print Assumptions C01_vol_create_dir_decodes_partial.
+Print Assumptions C01_vol_create_dir_frame_partial.
+Print Assumptions C01_vol_create_then_remove_dir_partial.
+Print Assumptions C01_vol_remove_dir_emptied_partial.
